@@ -66,8 +66,9 @@ def r18_1(run):
     # names copied from the local scope into branch_params: expand the comprehension of locals().get(<name>)
     fw = None
     for c in r0.calls():
-        if c.fn[0] == "attr" and c.fn[2] == "update" and c.args and c.args[0][0] == "comp":
-            els = expand_comp(c.args[0])
+        if c.fn[0] == "attr" and c.fn[2] == "update" and c.args and c.args[0][0] in ("comp", "dict"):
+            # (a comprehension over displays arrives already expanded, as the dictionary display of its entries)
+            els = expand_comp(c.args[0]) if c.args[0][0] == "comp" else [("kv", k_, v_) for k_, v_ in c.args[0][1]]
             if els and all(e[0] == "kv" and e[1][0] == "c" and e[2][0] == "call" and e[2][1][0] == "attr" and e[2][1][2] == "get"
                            and e[2][2][:1] == (e[1],) for e in els):
                 fw = sorted(e[1][1] for e in els)
